@@ -20,7 +20,9 @@ RULE = ("case = product graph (3-7 names x 1-3 versions, DAG by name order, requ
         "and the printed command text), the others call eups.app.setup; the command list is compared string by string; "
         "setup --type build with if (type == build) blocks; input classes with floors: all versions of a product sharing ONE "
         "table file (${PRODUCT_VERSION}) and switched, own directory spelled ${<NAME>_DIR} in the middle of a value, a "
-        "set-up bystander named <requested product>_<suffix>; "
+        "set-up bystander named <requested product>_<suffix>, a version named like a recognised tag set up and replaced, "
+        "products / variables named eups_… / EUPS_…; sessions: ONE Eups object serving 2-4 top-level Eups.setup calls (16 per "
+        "batch, half aimed at a dependency asked for differently by two calls); "
         "a case is non-trivial when some "
         "request changes the environment; distinct = distinct (graph, prior, history) digests")
 TRUSTED = ["harness/lib_setup.py: generator, canonicaliser (element lists split at the variable's delimiter, $S for the "
